@@ -251,7 +251,7 @@ pub fn run(ctx: &Ctx) -> Outcome {
             for s1 in 0..steps {
                 for s2 in s1..steps {
                     for which in 0..3u8 {
-                        jobs.push(Case { holds: vec![(s1, 1, which), (s2, 1, (which + (s1 + s2) as u8) % 3)], ..base.clone() });
+                        jobs.push(Case { holds: vec![(s1, 1, which), (s2, 1, ((which as usize + s1 + s2) % 3) as u8)], ..base.clone() });
                     }
                 }
             }
